@@ -85,7 +85,8 @@ def run(chk: Check):
         for nexp_terms in ((6, 10) if ci == 0 else (6,)):
             nw = 3
             dt = 0.02
-            prop = propagation.propagator_unrestricted(dt=dt, n_walkers=nw, n_exp_terms=nexp_terms)
+            # (every other case with one walker per batch: the per-walker constants must reach THEIR walker in every batch)
+            prop = propagation.propagator_unrestricted(dt=dt, n_walkers=nw, n_exp_terms=nexp_terms, n_batch=(nw if ci % 2 == 0 else 1))
             # (the measurement set-up of the mean-field trials symmetrises h1 with a plain transpose - it is written for real
             # h1; the free-projection step itself needs only the propagation intermediates, which take a complex h1 as is)
             hd = dict(hd0) if "complex-h1" in flags else hm.build_measurement_intermediates(dict(hd0), trial, wd)
